@@ -15,6 +15,7 @@ EXTENDS Integers, Sequences, FiniteSets, TLC, Json, IOUtils, SequencesExt
 TC == INSTANCE TransferCoding
 RM == INSTANCE ResponseMsg
 HP == INSTANCE HeaderPolicy
+HS == INSTANCE HeadSyntax
 
 Mode == IF "FN_MODE" \in DOMAIN IOEnv THEN IOEnv.FN_MODE ELSE "domain"
 Tier == IF "FN_TIER" \in DOMAIN IOEnv THEN IOEnv.FN_TIER ELSE "quick"
@@ -67,6 +68,13 @@ C19Cases == [list : C19Lists, route : {"ctor", "add", "with"}, ncase : {"std", "
 C19Pick(c) == Tier # "quick" \/ c.ncase \in {"std", "mixed"} \/ Len(c.list) <= 1
 GenC19(f) == ndJsonSerialize(f, SetToSeq({c \in C19Cases : C19Pick(c)}))
 
+\* ---- C02: every valid header line over the abstract alphabet, with its reference parse
+C02Lines == IF Tier = "quick" THEN HS!ValidLines(2, 3) ELSE HS!ValidLines(2, 4)
+GenC02(f) == ndJsonSerialize(f, SetToSeq({[line |-> l, name |-> HS!FieldName(l), value |-> HS!FieldValue(l)] : l \in C02Lines}))
+\* sanity of the reference operators themselves
+C02Sane == \A l \in HS!ValidLines(2, 2) : HS!LineClass(l) = "ok" /\ HS!FieldName(l) # <<>>
+                 /\ (HS!FieldValue(l) # <<>> => (Head(HS!FieldValue(l)) \notin HS!OWS /\ HS!FieldValue(l)[Len(HS!FieldValue(l))] \notin HS!OWS))
+
 \* ---- validation of observations
 ObsOf(f) == ndJsonDeserialize(f)
 
@@ -91,6 +99,7 @@ ASSUME
       [] Mode = "genC05" -> GenC05(OutFile) /\ PrintT(<<"GEN", Cardinality(C05Cases)>>)
       [] Mode = "genC04" -> GenC04(OutFile) /\ PrintT(<<"GEN", Cardinality({c \in C04Cases : C04Pick(c)})>>)
       [] Mode = "genC19" -> GenC19(OutFile) /\ PrintT(<<"GEN", Cardinality({c \in C19Cases : C19Pick(c)})>>)
+      [] Mode = "genC02" -> C02Sane /\ GenC02(OutFile) /\ PrintT(<<"GEN", Cardinality(C02Lines)>>)
       [] Mode = "check" -> CheckObs
 
 VARIABLE dummy
